@@ -19,6 +19,9 @@ import collections
 from sim import core
 
 
+LAST_HIT = {'v': None}
+
+
 def crashes(mod, desc, opts):
     """True when replaying desc kills a forked child with a signal."""
     sys.stdout.flush()
@@ -61,6 +64,7 @@ def shrink(mod, desc, cls, opts, budget_s=120, max_replays=400):
             hit = [v for v in vs if core.vclass(v) == cls]
             if hit:
                 desc = hit[0]['desc']
+                LAST_HIT['v'] = hit[0]
                 improved = True
                 break
     return desc, n
@@ -164,16 +168,29 @@ def main(modname, argv):
     new_lines = []
     known_lines = []
     t_shr = time.time()
+    # within one class, occurrences that match a listed finding as they stand are set apart, so that a different
+    # violation of the same class is still shrunk and reported on its own
+    split = collections.OrderedDict()
     for cls, occ in by_cls.items():
+        kn = [(i, v) for i, v in occ if core.match_known(v, known) is not None]
+        un = [(i, v) for i, v in occ if core.match_known(v, known) is None]
+        if kn:
+            k = core.match_known(kn[0][1], known)
+            path = core.write_replay(prop, seed, kn[0][0], kn[0][1], '-known-' + k['id'])
+            known_lines.append('KNOWN-FINDING: property=%s %s [%s; %d occurrence(s); replay=%s]' % (prop, k['what'], k['id'], len(kn), path))
+        if un:
+            split[cls] = un
+    for cls, occ in split.items():
         i, v = occ[0]
         desc = v['desc']
         nrep = 0
+        LAST_HIT['v'] = None
         if not a.no_shrink and time.time() - t_shr < 600:
             try:
                 desc, nrep = shrink(mod, desc, cls, opts)
             except Exception as e:
                 harness.append('shrink failed: %r' % (e,))
-        v2 = dict(v)
+        v2 = dict(LAST_HIT['v'] or v)      # the violation as produced by the minimised descriptor (message, extra)
         v2['desc'] = desc
         k = core.match_known(v2, known)
         if k is None and desc is not v['desc']:
